@@ -26,6 +26,10 @@ import (
 type material struct {
 	dir                     string
 	cert, key, ca, htpasswd string
+	// grpcBackend: host:port of an in-process bazel-remote whose gRPC side can
+	// serve as a grpc_proxy back end of the binary ("" if it could not start)
+	grpcBackend string
+	backend     *lib.Server
 }
 
 func writePEM(path, typ string, der []byte) {
@@ -68,10 +72,18 @@ func newMaterial() *material {
 
 	m.htpasswd = filepath.Join(m.dir, "htpasswd")
 	_ = os.WriteFile(m.htpasswd, []byte("alice:{SHA}W6ph5Mm5Pz8GgiULbPgzG37mj9g=\n"), 0o600)
+	if srv, err := lib.StartServer(lib.ServerOpts{MaxSize: 64 << 20, NoHTTP: true}); err == nil {
+		m.backend, m.grpcBackend = srv, srv.GRPCAddr
+	}
 	return m
 }
 
-func (m *material) cleanup() { _ = os.RemoveAll(m.dir) }
+func (m *material) cleanup() {
+	if m.backend != nil {
+		m.backend.Close()
+	}
+	_ = os.RemoveAll(m.dir)
+}
 
 // genStartable: a valid set the real binary can start with immediately (real
 // directory, free loopback ports, no proxy backend, no LDAP server needed).
@@ -130,28 +142,65 @@ func genStartable(rng *rand.Rand, m *material, idx int) *settingSet {
 	return s
 }
 
-// makeStartableInvalid applies an invalid class to a startable set and points
-// every file setting the class introduced at real material, so that a build
-// which no longer refuses the class would start serving.
-func makeStartableInvalid(rng *rand.Rand, m *material, cls invalidClass, idx, k int) (*settingSet, string) {
-	s := genStartable(rng, m, idx)
-	variant := cls.apply(rng, s, k)
-	for name, real := range map[string]string{"tls_cert_file": m.cert, "tls_key_file": m.key, "tls_ca_file": m.ca, "htpasswd_file": m.htpasswd} {
-		if s.has(name) {
-			s.set(name, real)
+// startableBackends are the proxy back ends the real binary can be configured
+// with and still start without any network peer beyond the harness's own
+// in-process gRPC cache (grpcBackend): a build that no longer refuses a pair of
+// them would come up and serve.
+var startableBackends = []string{"http", "grpc", "s3", "azblob"}
+
+var startablePairs = func() [][2]string {
+	var out [][2]string
+	for i := range startableBackends {
+		for j := i + 1; j < len(startableBackends); j++ {
+			out = append(out, [2]string{startableBackends[i], startableBackends[j]})
 		}
 	}
-	if cls.Name == "multiple-proxy-backends" {
-		// two backends that need no network at start-up
-		delProxies(s)
+	return out
+}()
+
+func setStartableBackend(s *settingSet, m *material, name string) {
+	switch name {
+	case "http":
 		s.set("http_proxy.url", fmt.Sprintf("http://127.0.0.1:%d/cache", lib.FreePort()))
+	case "grpc":
+		s.set("grpc_proxy.url", "grpc://"+m.grpcBackend)
+	case "s3":
 		s.set("s3.endpoint", fmt.Sprintf("127.0.0.1:%d", lib.FreePort()))
 		s.set("s3.bucket", "bkt")
 		s.set("s3.auth_method", "access_key")
 		s.set("s3.access_key_id", "AKID")
 		s.set("s3.secret_access_key", "SECRET")
 		s.set("s3.disable_ssl", "true")
-		variant = "http+s3"
+	case "azblob":
+		s.set("azblob.storage_account", "acctc19")
+		s.set("azblob.container_name", "cont")
+		s.set("azblob.auth_method", "shared_key")
+		s.set("azblob.shared_key", "c2hhcmVkLWtleS1jMTktYmluYXJ5LXNsaWNl") // any base64
+		s.set("azblob.tenant_id", "tenant-c19")
+	}
+}
+
+// makeStartableInvalid applies an invalid class to a startable set and points
+// every file setting the class introduced at real material, so that a build
+// which no longer refuses the class would start serving.
+func makeStartableInvalid(rng *rand.Rand, m *material, cls invalidClass, idx, k int) (set *settingSet, variant, sub string) {
+	s := genStartable(rng, m, idx)
+	variant, sub = cls.apply(rng, s, k)
+	for name, real := range map[string]string{"tls_cert_file": m.cert, "tls_key_file": m.key, "tls_ca_file": m.ca, "htpasswd_file": m.htpasswd} {
+		// (an explicitly EMPTY value is one of the spellings of "not given": keep it)
+		if v, _ := s.get(name); v != "" {
+			s.set(name, real)
+		}
+	}
+	if cls.Name == "multiple-proxy-backends" {
+		// pairs of back ends that need no foreign network peer at start-up
+		delProxies(s)
+		pair := startablePairs[k%len(startablePairs)]
+		setStartableBackend(s, m, pair[0])
+		setStartableBackend(s, m, pair[1])
+		names := []string{pair[0], pair[1]}
+		sort.Strings(names) // same spelling as the in-process class
+		variant, sub = names[0]+"+"+names[1], ""
 	}
 	if g, _ := s.get("grpc_address"); g == "none" {
 		s.del("experimental_remote_asset_api")
@@ -163,7 +212,7 @@ func makeStartableInvalid(rng *rand.Rand, m *material, cls invalidClass, idx, k 
 	if !s.has("grpc_address") && !s.has("grpc_port") {
 		s.set("grpc_address", fmt.Sprintf("127.0.0.1:%d", lib.FreePort()))
 	}
-	return s, variant
+	return s, variant, sub
 }
 
 // binaryInput turns a set into what StartBinary needs for one syntax.
